@@ -484,9 +484,10 @@ pub fn exec(case: &Case2, mut log: Option<&mut Vec<String>>) -> Exec2 {
                             if let Some(m) = fs.models.get_mut(&0) {
                                 if m.clear() > 0 {
                                     out.counters.inc("probe.group_invalidation_removed_entries");
+                                    // only an invalidation that removed something can leave bookkeeping behind
+                                    fs.inv_tainted = true;
                                 }
                             }
-                            fs.inv_tainted = true;
                         } else if strs != fs.listed {
                             return Err(Clause::new("collateral_invalidation", &["C13"], format!("{op:?} changed cache {} [{}] which does not match: {:?} -> {strs:?}", fs.spec.reg_name, fs.spec.attrs, fs.listed)));
                         }
@@ -608,9 +609,10 @@ fn check_after_conditional(st: &mut BTreeMap<u16, FnState>, masks: &[(u16, u8)],
             }
             out.classes.insert(format!("f{}:inv:with:{}:{}", fs.spec.id, removed.min(3), strs.len().min(3)));
             if let Some(m) = fs.models.get_mut(&0) {
-                m.invalidate(&|k| mask & (1 << k) != 0);
+                if m.invalidate(&|k| mask & (1 << k) != 0) > 0 {
+                    fs.inv_tainted = true;
+                }
             }
-            fs.inv_tainted = true;
         }
         fs.listed = strs;
     }
